@@ -484,6 +484,8 @@ func replayFile(out *vc.Out, path string) {
 			replayRaw(out, toks)
 		case "rtw":
 			replayRTW(out, toks)
+		case "cw":
+			replayCW(out, toks)
 		}
 	}
 }
@@ -508,6 +510,8 @@ func main() {
 			genRT(out, r, *tier == "thorough")
 		case "ws":
 			genRTW(out, r, *tier == "thorough")
+		case "cw":
+			genCW(out, r, *tier == "thorough")
 		case "raw":
 			genRaw(out, r, *tier == "thorough")
 		}
